@@ -174,7 +174,11 @@ ScenMol(s) ==
       Lm == MinBox(frames)
       h0 == HiLayout(s, 20, 2)
       l1 == [h0 EXCEPT !.n = CapN(h0.mq, h0.sq, 4 + Pick(s, 22, 8), Lm)]
-      l2 == NbLayout(s, 24, Lm)
+      \* A-B range covers every bond length (1 .. 2.83 u = 4 .. 11.3 q): lowest edge <= 3 q, max >= 14 q
+      l2 == [den |-> 4, mq |-> PickSeq(s, 24, <<0, 2, 4>>), sq |-> PickSeq(s, 25, <<2, 4>>), n |-> 8 + Pick(s, 26, 8)]
+      \* order in which the bonded lines list their beads (ids ascend A1 < B1 < A2):
+      \*   1 everything descending; 2 first bond and angle descending; 0 second bond and angle descending
+      ord == s % 3
       lb == [den |-> 4, mq |-> PickSeq(s, 40, <<2, 1, 4, 3>>), sq |-> PickSeq(s, 41, <<2, 1, 2>>), n |-> 6 + Pick(s, 42, 6)]
       asq == PickSeq(s, 43, <<4, 2, 8>>)
       \* angle range up to pi (full) or cut short (values discarded)
@@ -184,8 +188,11 @@ ScenMol(s) ==
       mols |-> <<[name |-> "TRI", nmols |-> NT,
                   beads |-> <<[name |-> "A1", type |-> "A"], [name |-> "B1", type |-> "B"], [name |-> "A2", type |-> "A"]>>],
                  Single("SOL", "A", NS + 3)>>,
-      bonded |-> <<[kind |-> "bond", name |-> "bnd", mol |-> "TRI", beads |-> <<<<"A1", "B1">>, <<"B1", "A2">>>>],
-                   [kind |-> "angle", name |-> "ang", mol |-> "TRI", beads |-> <<<<"A1", "B1", "A2">>>>]>>,
+      ord |-> ord,
+      bonded |-> <<[kind |-> "bond", name |-> "bnd", mol |-> "TRI",
+                    beads |-> << IF ord = 0 THEN <<"A1", "B1">> ELSE <<"B1", "A1">>,
+                                 IF ord = 2 THEN <<"B1", "A2">> ELSE <<"A2", "B1">> >>],
+                   [kind |-> "angle", name |-> "ang", mol |-> "TRI", beads |-> << <<"A2", "B1", "A1">> >>]>>,
       inter |-> <<Nb("A-A", "A", "A", l1, grp, Target(s, 30, l1.n)),
                   Nb("A-B", "A", "B", l2, grp, Target(s, 50, l2.n)),
                   Bonded("bnd", "bond", lb, "none", <<>>), Bonded("ang", "angle", la, "none", <<>>)>>,
@@ -286,7 +293,13 @@ ScenChain(s) ==
       Lm == MinBox(frames)
       h0 == HiLayout(s, 20, 2)
       l1 == [h0 EXCEPT !.n = CapN(h0.mq, h0.sq, 4 + Pick(s, 22, 8), Lm)]
-      l2 == NbLayoutDec(s, 24, Lm)
+      b2 == NbLayoutDec(s, 24, Lm)
+      \* A*-B range reaches at least 2 u = 200 q, so every bonded A-B pair (1 .. 1.41 u) would be counted
+      l2 == [b2 EXCEPT !.n = Max2(b2.n, (200 - b2.mq + b2.sq - 1) \div b2.sq + 1)]
+      \* order of the bead lists (ids ascend A1 < B1 < B2 < A2); a ring-closure bond A2 A1 in every variant:
+      \*   0 everything descending; 1 mixed, the A1 end descending in bond, angle and dihedral;
+      \*   2 angles and dihedral ascending, bonds mixed
+      ord == s % 3
       lb == [den |-> 100, mq |-> 24, sq |-> 16, n |-> 12 + Pick(s, 42, 7)]        \* min 0.03, step 0.02 nm
       asq == PickSeq(s, 43, <<4, 2, 8>>)
       la == [den |-> 4, mq |-> 0, sq |-> asq, n |-> 100 \div asq + 2]
@@ -298,9 +311,17 @@ ScenChain(s) ==
                   beads |-> <<[name |-> "A1", type |-> "A1"], [name |-> "B1", type |-> "B"],
                               [name |-> "B2", type |-> "B"], [name |-> "A2", type |-> "A2"]>>],
                  [name |-> "SOL", nmols |-> NS + 3, beads |-> <<[name |-> "S1", type |-> "A1"]>>]>>,
-      bonded |-> <<[kind |-> "bond", name |-> "bnd", mol |-> "CH", beads |-> <<<<"A1", "B1">>, <<"B1", "B2">>, <<"B2", "A2">>>>],
-                   [kind |-> "angle", name |-> "ang", mol |-> "CH", beads |-> <<<<"A1", "B1", "B2">>, <<"B1", "B2", "A2">>>>],
-                   [kind |-> "dihedral", name |-> "dih", mol |-> "CH", beads |-> <<<<"A1", "B1", "B2", "A2">>>>]>>,
+      ord |-> ord,
+      bonded |-> <<[kind |-> "bond", name |-> "bnd", mol |-> "CH",
+                    beads |-> << <<"B1", "A1">>,
+                                 IF ord = 0 THEN <<"B2", "B1">> ELSE <<"B1", "B2">>,
+                                 IF ord = 1 THEN <<"B2", "A2">> ELSE <<"A2", "B2">>,
+                                 <<"A2", "A1">> >>],
+                   [kind |-> "angle", name |-> "ang", mol |-> "CH",
+                    beads |-> << IF ord = 2 THEN <<"A1", "B1", "B2">> ELSE <<"B2", "B1", "A1">>,
+                                 IF ord = 0 THEN <<"A2", "B2", "B1">> ELSE <<"B1", "B2", "A2">> >>],
+                   [kind |-> "dihedral", name |-> "dih", mol |-> "CH",
+                    beads |-> << IF ord = 2 THEN <<"A1", "B1", "B2", "A2">> ELSE <<"A2", "B2", "B1", "A1">> >>]>>,
       inter |-> <<NbW("AA", <<"A*", "A*">>, <<AA, AA>>, l1, "g1", Target(s, 30, l1.n)),
                   NbW("AB", <<"A*", "B">>, <<AA, {"B"}>>, l2, PickSeq(s, 5, <<"g1", "none">>), Target(s, 50, l2.n)),
                   Bonded("bnd", "bond", lb, "g1", Target(s, 70, lb.n)),
